@@ -23,11 +23,25 @@ def discount(wacc, elapsed_days_end):
     return pw(zl(1.0) + w, -Fraction(elapsed_days_end) / 365)
 
 
+class _Tagged(list):
+    """objective terms; every appended term is also recorded with the (asset, step) it belongs to"""
+
+    def __init__(self, owner):
+        super().__init__()
+        self.owner = owner
+
+    def append(self, term):
+        super().append(term)
+        self.owner.obj_tagged.append((self.owner._cur[0], self.owner._cur[1], term))
+
+
 class Ref:
     def __init__(self):
         self.vars = {}          # name -> z3 Real
         self.cons = []          # (label, z3 Bool)
-        self.obj_terms = []
+        self.obj_terms = _Tagged(self)
+        self.obj_tagged = []    # (asset, step, term)
+        self._cur = (None, None)
         self.node_in = {}       # (node, t) -> list of terms delivered into the node
         self.ints = []          # names of {0,1} variables
 
@@ -67,6 +81,7 @@ def build(spec):
         if kind in ('contract', 'multicommodity'):
             g = {}
             for t in act:
+                R._cur = (nm, t)
                 g[t] = R.var('%s_g%d' % (nm, t))
                 ab = R.var('%s_a%d' % (nm, t))          # a >= |g|: volume that pays the spread
                 R.add('%s/cap_lo/%d' % (nm, t), g[t] >= a['min_cap'][t] * dt[t])
@@ -87,6 +102,7 @@ def build(spec):
                 R.add('%s/take%d' % (nm, k), tot <= lim if sense == 'max' else tot >= lim)
         elif kind == 'transport':
             for t in act:
+                R._cur = (nm, t)
                 f = R.var('%s_f%d' % (nm, t))
                 R.add('%s/cap_lo/%d' % (nm, t), f >= a['min_cap'] * dt[t])
                 R.add('%s/cap_hi/%d' % (nm, t), f <= a['max_cap'] * dt[t])
@@ -103,6 +119,7 @@ def build(spec):
             prev = a['start']
             infl_cum = R0
             for t in act:
+                R._cur = (nm, None)          # holding cost couples the steps of a storage: one piece per storage
                 ch = R.var('%s_ch%d' % (nm, t)); dis = R.var('%s_dis%d' % (nm, t)); lv = R.var('%s_lv%d' % (nm, t))
                 R.add('%s/ch_lo/%d' % (nm, t), ch >= 0)
                 R.add('%s/ch_hi/%d' % (nm, t), ch <= a['cap_in'] * dt[t])
@@ -133,6 +150,7 @@ def build(spec):
                     R.add('%s/exec_int/%d' % (nm, k), z3.Or(e == 0, e == 1))
                     R.ints.append('%s_e%d' % (nm, k))
                 for t in o['steps']:
+                    R._cur = (nm, None)
                     R.deliver(a['nodes'][0], t, e * o['capa'] * dt[t])
                     R.obj_terms.append(-e * o['capa'] * o['price'] * dt[t] * DF[t])
         else:
